@@ -123,6 +123,9 @@ def build(op, seed, variant=0):
         q = 1 + v % 2
         dd = 2 + (v // 2) % 2
         T = mk_tt(rng, [2 ** q] * dd, 2)
+        if v % 8 >= 6:
+            # mode slices of the first core of wildly different magnitude (the first core is handed to the factorisation as a view)
+            T[0] = T[0] * np.array([1e120, 1e-200, 1.0, 1e-250])[:T[0].shape[1]][None, :, None]
         if op == "tt_to_qtt":
             return C(op, teneva.tt_to_qtt, [T], dict(e=1e-10, r=[100, 2][v % 2]))
         if op == "optima_qtt":
@@ -367,6 +370,9 @@ def build(op, seed, variant=0):
             A = np.zeros((a_, b_) if (v // 6) % 2 == 0 else (b_, a_))
         elif v % 6 == 5:
             A = np.outer(A[:, 0], np.ones(A.shape[1]))  # rank one with exactly repeated columns
+        elif v % 6 == 3 and (v // 6) % 2 == 1:
+            # columns of wildly different magnitude (1e120 next to 1e-200): any transient in-place rescaling of the argument loses the small ones
+            A = A * np.array([1e120, 1e-200, 1.0, 1e-250, 1e60, 1e-120])[:A.shape[1]][None, :]
         if op == "matrix_svd":
             return C(op, teneva.matrix_svd, [A], dict(e=[1e-10, 0.5][v % 2], r=[1e12, 2][(v // 2) % 2]))
         if v % 5 == 4:
